@@ -605,6 +605,18 @@ def summary_special(model, rng):
     for n in tail:
         for layer in by[n]["layers"].values():
             layer["width"] = w
+    # codepoints on the edges of Unicode blocks, each alone in its block (OS/2 range bits come from a block lookup)
+    edges = [0x0080, 0x00FF, 0x0100, 0x017F, 0x0180, 0x024F, 0x0530, 0x058F, 0x0590, 0x05FF, 0x0E00, 0x0E7F, 0x20A0, 0x20CF, 0x2100, 0x214F,
+             0x2190, 0x21FF, 0x2200, 0x22FF, 0x25A0, 0x25FF, 0x3000, 0x303F, 0x3040, 0x309F, 0xFB00, 0xFB4F, 0x0370, 0x03FF, 0x0400, 0x04FF]
+    r2 = random.Random(rng.random())
+    blocks_used = set()
+    for g in r2.sample([g for g in glyphs if g["export"]], min(3, len([g for g in glyphs if g["export"]]))):
+        cp = r2.choice(edges)
+        blk = edges.index(cp) // 2
+        if blk in blocks_used or any(cp in x.get("unicodes", []) for x in glyphs):
+            continue
+        blocks_used.add(blk)
+        g["unicodes"] = list(g.get("unicodes") or []) + [cp]
     for g in rng.sample(glyphs, min(2, len(glyphs))):
         empty = rng.random() < 0.5
         used = any(c["base"] == g["name"] for o in glyphs for l in o["layers"].values() for c in l["components"])
@@ -1048,6 +1060,15 @@ def add_rules(model, rng, n_rules=None, conflicts=0.2):
         if subs:
             rules.append({"sets": sets, "subs": subs})
     model["rules"] = {"processing": rng.choice(["first", "first", "last"]), "rules": rules} if rules else None
+    r2 = random.Random(rng.random())
+    if rules and r2.random() < 0.6 and {"D", "E"} <= have:
+        # feature code of the source next to the rules: an aalt feature puts its own lookups in front of everything
+        # else in GSUB, so the lookups the rule records point to move (they must move with it)
+        feats = [("aalt", "feature salt;" + (" feature ss01;" if r2.random() < 0.5 else "")), ("salt", "sub E by D;"), ("ss01", "sub D by E;")]
+        if r2.random() < 0.5:
+            feats.append(("liga", "sub D E by E;"))
+        model["fea_features"] = feats
+        model["features_fea"] = "languagesystem DFLT dflt;\n" + "".join(f"feature {t} {{\n  {code}\n}} {t};\n" for t, code in feats)
     return model
 
 
